@@ -157,10 +157,16 @@ package handlers
 
 // passthrough: the engine gets exactly the endpoint list it was handed here, the client's own bytes, the native path
 //@ func (a *Application) executePassthroughRequest
-//@   property C14
+//@   property C14 C05
 //@   safety
 //@   requires a != nil && a.proxyService != nil && w != nil && r != nil && r.URL != nil && trans != nil && pr != nil && pr.requestLogger != nil && pr.stats != nil
+//@   requires !ghost(w).started && len(ghost(w).hdr["Content-Type"]) == 0 && allocated(ghost(w).hdr)
 //@   modifies *
+// C05: a request that cannot be prepared is answered 400 (500 for a translator without passthrough) in the
+// translator's error format, and when every attempt failed before anything was sent the client gets 502
+//@   at return 1 assert ghost(w).started && ghost(w).status == 500 && pxCalls == old(pxCalls) && pr.hadError
+//@   at return 2 assert ghost(w).started && ghost(w).status == 400 && pxCalls == old(pxCalls) && pr.hadError
+//@   ensures pxCalls == old(pxCalls) + 1 && pxErr != nil ==> ghost(w).started && (!pxStarted ==> ghost(w).status == 502 && pr.hadError)
 //@   ensures pxCalls == old(pxCalls) || pxCalls == old(pxCalls) + 1
 //@   ensures pxCalls == old(pxCalls) + 1 ==> pxEndpoints == endpoints
 //@   ensures pxCalls == old(pxCalls) + 1 ==> pxBody == bytesContent(bodyBytes)
@@ -179,7 +185,10 @@ package handlers
 //@   property C14 C19
 //@   safety
 //@   requires a != nil && a.proxyService != nil && a.statsCollector != nil && w != nil && r != nil && r.URL != nil && trans != nil && pr != nil && pr.requestLogger != nil && pr.stats != nil && allNonNil(endpoints)
+//@   requires !ghost(w).started && len(ghost(w).hdr["Content-Type"]) == 0 && allocated(ghost(w).hdr)
 //@   modifies *
+//@   loop 1 invariant !ghost(w).started && ghost(w).hdr == old(ghost(w).hdr) && len(ghost(w).hdr["Content-Type"]) == 0
+//@   ensures pxCalls == old(pxCalls) + 1 && pxErr != nil ==> ghost(w).started && (!pxStarted ==> ghost(w).status == 502)
 //@   loop 1 invariant forall k int :: 0 <= k && k < len(passthroughEndpoints) ==> passthroughEndpoints[k] != nil && member(passthroughEndpoints[k], endpoints) && native(passthroughEndpoints[k].Type)
 //@   loop 1 invariant forall j int :: 0 <= j && j < i$1 && native(endpoints[j].Type) ==> member(endpoints[j], passthroughEndpoints)
 //@   at call executePassthroughRequest 1 assert forall k int :: 0 <= k && k < len(passthroughEndpoints) ==> passthroughEndpoints[k] != nil && member(passthroughEndpoints[k], endpoints) && native(passthroughEndpoints[k].Type)
@@ -205,7 +214,7 @@ package handlers
 //@   safety
 //@   requires a != nil && a.proxyService != nil && w != nil && r != nil && r.URL != nil && trans != nil && pr != nil && pr.requestLogger != nil && pr.stats != nil
 //@   requires allocated(ghost(w).hdr)
-//@   modifies gvar pxCalls, gvar pxEndpoints, gvar pxPath, gvar pxBody, gvar lastEncoded, ghost started, ghost status, ghost hdr, ghost(w).hdr[all], ghost encW, ghost remaining, ghost backing, ports.RequestStats.RoutingDecision, object pr.stats, gvar unflushed, pr.hadError
+//@   modifies gvar pxCalls, gvar pxEndpoints, gvar pxPath, gvar pxBody, gvar pxErr, gvar pxStarted, gvar lastEncoded, ghost started, ghost status, ghost hdr, ghost(w).hdr[all], ghost encW, ghost remaining, ghost backing, ports.RequestStats.RoutingDecision, object pr.stats, gvar unflushed, pr.hadError
 //@   ensures pxCalls == old(pxCalls) + 1 && pxEndpoints == endpoints && pxPath == old(r.URL.Path) && pxBody == old(ghost(r.Body).remaining)
 //@   ensures res == nil ==> ghost(w).started
 //@   ensures !old(ghost(w).started) && ghost(w).started && ghost(w).status >= 400 ==> pr.hadError
@@ -279,7 +288,7 @@ package handlers
 //@ func (a *Application) startProxyGoroutine
 //@   property C05
 //@   trusted
-//@   modifies object streamRecorder, ghost(streamRecorder).started, ghost(streamRecorder).status, gvar pxCalls, gvar pxEndpoints, gvar pxPath, gvar pxBody, object pr.stats, ports.RequestStats.RoutingDecision, ghost remaining, ghost backing
+//@   modifies object streamRecorder, ghost(streamRecorder).started, ghost(streamRecorder).status, gvar pxCalls, gvar pxEndpoints, gvar pxPath, gvar pxBody, gvar pxErr, gvar pxStarted, object pr.stats, ports.RequestStats.RoutingDecision, ghost remaining, ghost backing
 //@   ensures res != nil
 
 //@ func (a *Application) handleStreamingPanic
@@ -315,10 +324,13 @@ package handlers
 //@   ensures ghost(w).started && (!old(ghost(w).started) ==> ghost(w).status == streamRecorder.status)
 //@   ensures ghost(pipeReader).remaining == 0
 
+// trStreams counts the streamed translations that were begun (the translator was handed the client's writer)
+//@ ghost var trStreams int
 //@ func (a *Application) transformStreamAndWaitForProxy
 //@   property C05
 //@   trusted
-//@   modifies ghost started, ghost status, ghost(w).hdr[all]
+//@   modifies ghost started, ghost status, ghost(w).hdr[all], gvar trStreams
+//@   records trStreams = old(trStreams) + 1
 
 // the streamed translation is started only after the backend has really answered (with a non-error status)
 //@ func (a *Application) executeTranslatedStreamingRequest
@@ -326,7 +338,13 @@ package handlers
 //@   replay handlers_translation_stream_noanswer
 //@   safety
 //@   requires a != nil && a.proxyService != nil && w != nil && r != nil && trans != nil && pr != nil && pr.requestLogger != nil && pr.stats != nil
-//@   modifies gvar pxCalls, gvar pxEndpoints, gvar pxPath, gvar pxBody, gvar lastEncoded, ghost started, ghost status, ghost hdr, ghost(w).hdr[all], ghost encW, ghost remaining, ghost backing, ports.RequestStats.RoutingDecision, object pr.stats, gvar unflushed, pr.hadError
+//@   requires allocated(ghost(w).hdr)
+//@   modifies gvar pxCalls, gvar pxEndpoints, gvar pxPath, gvar pxBody, gvar pxErr, gvar pxStarted, gvar lastEncoded, ghost started, ghost status, ghost hdr, ghost(w).hdr[all], ghost encW, ghost remaining, ghost backing, ports.RequestStats.RoutingDecision, object pr.stats, gvar unflushed, pr.hadError, gvar trStreams
+// C05: unless the translated stream was begun, either an error answer has been written here (no endpoints: 503; the
+// backend's own error status relayed) or the client's writer is untouched and the error is returned to the caller
+//@   ensures trStreams == old(trStreams) || trStreams == old(trStreams) + 1
+//@   ensures trStreams == old(trStreams) && res == nil ==> ghost(w).started && (!old(ghost(w).started) ==> ghost(w).status >= 400)
+//@   ensures trStreams == old(trStreams) && res != nil ==> ghost(w).started == old(ghost(w).started) && ghost(w).hdr == old(ghost(w).hdr) && len(ghost(w).hdr["Content-Type"]) == old(len(ghost(w).hdr["Content-Type"]))
 //@   at call transformStreamAndWaitForProxy 1 assume streamRecorder.answered == ghost(streamRecorder).started
 //@   at call transformStreamAndWaitForProxy 1 assert ghost(streamRecorder).started && streamRecorder.status < 400
 
@@ -342,6 +360,7 @@ package handlers
 //@   ensures !transformedReq.IsStreaming ==> ghost(w).started
 //@   ensures a.statsCollector == old(a.statsCollector) && pr.stats == old(pr.stats) && pr.stats != nil && trCount == old(trCount)
 //@   ensures !transformedReq.IsStreaming && ghost(w).started && ghost(w).status >= 400 ==> pr.hadError
+//@   ensures transformedReq.IsStreaming && trStreams == old(trStreams) ==> ghost(w).started && ghost(w).status >= 400
 
 // request bookkeeping at the top of every proxy-like handler (no client output, no engine call)
 //@ func (a *Application) initializeProxyRequest
@@ -403,14 +422,17 @@ package handlers
 //@   requires a != nil && w != nil
 //@   modifies ghost(w).started, ghost(w).status, ghost(w).hdr[all]
 //@   ensures old(len(ghost(w).hdr["Content-Type"])) == 0 ==> ghost(w).started && (!old(ghost(w).started) ==> ghost(w).status == 502)
+//@   ensures old(ghost(w).started) ==> ghost(w).started
 //@   ensures old(len(ghost(w).hdr["Content-Type"])) != 0 && old(ghost(w).hdr["Content-Type"][0]) != "" ==> ghost(w).started == old(ghost(w).started) && ghost(w).status == old(ghost(w).status)
 
 //@ func (a *Application) executeProxyRequest
 //@   property C05
 //@   safety
 //@   requires a != nil && a.proxyService != nil && w != nil && r != nil && r.URL != nil && pr != nil && pr.stats != nil
-//@   modifies gvar pxCalls, gvar pxEndpoints, gvar pxPath, gvar pxBody, object w, object pr.stats, ghost(w).started, ghost(w).status, ghost(w).hdr[all], ghost remaining, ghost backing, ports.RequestStats.RoutingDecision
+//@   modifies gvar pxCalls, gvar pxEndpoints, gvar pxPath, gvar pxBody, gvar pxErr, gvar pxStarted, object w, object pr.stats, ghost(w).started, ghost(w).status, ghost(w).hdr[all], ghost remaining, ghost backing, ports.RequestStats.RoutingDecision
 //@   ensures pxCalls == old(pxCalls) + 1 && pxEndpoints == endpoints && pxPath == old(r.URL.Path)
+//@   ensures pxErr == res && pxStarted == ghost(w).started
+//@   ensures !ghost(w).started ==> ghost(w).hdr == old(ghost(w).hdr) && len(ghost(w).hdr["Content-Type"]) == old(len(ghost(w).hdr["Content-Type"]))
 
 // ---- C09: a request that model routing rejected is answered with the decision's status, not proxied
 //@ func routingRejection
@@ -438,6 +460,8 @@ package handlers
 //@   ensures pxCalls == old(pxCalls) ==> ghost(w).started
 //@   ensures pxCalls == old(pxCalls) || pxCalls == old(pxCalls) + 1
 //@   ensures decisionCount == old(decisionCount) + 1 && lastDecision != nil && lastDecision.Action == "rejected" && lastDecision.StatusCode >= 400 ==> pxCalls == old(pxCalls) && ghost(w).started && ghost(w).status == lastDecision.StatusCode
+// every attempt failed before anything was sent: the client gets 502, not an empty 200
+//@   ensures pxCalls == old(pxCalls) + 1 && pxErr != nil ==> ghost(w).started && (!pxStarted ==> ghost(w).status == 502)
 
 // ---- C05 / C09 / C11: the provider-scoped route as a whole
 //@ func extractProviderFromPath
@@ -473,3 +497,4 @@ package handlers
 //@   at call executeProxyRequest 1 assert len(endpoints) > 0 && lastProviderProfile != nil && (forall k int :: 0 <= k && k < len(endpoints) ==> epCompatible(endpoints[k], lastProviderProfile.SupportedBy))
 //@   ensures pxCalls == old(pxCalls) ==> ghost(w).started
 //@   ensures pxCalls == old(pxCalls) || pxCalls == old(pxCalls) + 1
+//@   ensures pxCalls == old(pxCalls) + 1 && pxErr != nil ==> ghost(w).started && (!pxStarted ==> ghost(w).status == 502)
